@@ -148,6 +148,29 @@ func init() {
 		ct0 := &aoltypes.MsgCreateTopicRequest{TopicName: "t", OwnerAddress: o}
 		cr := &didtypes.MsgCreateDIDRequest{Did: idents[0].did, Document: doc, VerificationMethodId: "v", Signature: []byte{1}, FromAddress: o}
 		up := &didtypes.MsgUpdateDIDRequest{Did: idents[0].did, Document: doc, VerificationMethodId: "v", Signature: []byte{1}, FromAddress: o}
+		// messages that differ only in bytes that are not valid UTF-8 inside a free-text string field (the
+		// validators admit them; amino-JSON renders every such byte as U+FFFD) — own monitor name, see F17
+		pairU := func(a, b sdk.Msg) {
+			la, lb := msgLabel(te, a), msgLabel(te, b)
+			for _, md := range modes {
+				ba, ra := e.signBytesOf(a, md.m, A)
+				bb, rb := e.signBytesOf(b, md.m, A)
+				ans := "pass"
+				switch {
+				case ra != "ok" || rb != "ok":
+					ans = "pass #not-signable-in-this-mode"
+				case bytes.Equal(ba, bb):
+					ans = "fail #identical-sign-bytes"
+				}
+				s.Emit(fmt.Sprintf("mon.c14.pair.utf8 mode=%s | %s | %s", md.name, la, lb), ans)
+			}
+		}
+		pairU(&aoltypes.MsgCreateTopicRequest{TopicName: "t", Description: "caf\xff", OwnerAddress: o},
+			&aoltypes.MsgCreateTopicRequest{TopicName: "t", Description: "caf\xfe", OwnerAddress: o})
+		pairU(&aoltypes.MsgAddWriterRequest{TopicName: "t", Description: "\xc3", WriterAddress: w, OwnerAddress: o},
+			&aoltypes.MsgAddWriterRequest{TopicName: "t", Description: "\xe9", WriterAddress: w, OwnerAddress: o})
+		pairU(&pnfttypes.MsgCreateDenomRequest{Id: "d", Name: "n", Symbol: "s", Description: "\xff", Creator: o},
+			&pnfttypes.MsgCreateDenomRequest{Id: "d", Name: "n", Symbol: "s", Description: "\xfe", Creator: o})
 		pair(aw0, dw)
 		pair(aw0, ar0)
 		pair(dw, ar0)
